@@ -8,9 +8,12 @@ on top of the directory model of RqModel/Model/SnapFS.lean.
 A payload is written with one operation (header plus all bytes): a full payload carries a
 database, its WAL segments and a verdict on what FullSink.Close will find (`ok`, `short`: bytes
 missing, `badcrc`); an incremental payload names a WAL directory holding the given segments.
-`Close` of an incremental is the code AFTER the `fix:` commit when `recheck = true` (the
-full-needed requirement is examined again before the WAL directory is consumed) and the code
-before it when `recheck = false`.
+`Close` takes the code level: 0 = before `fix:` 32ed8a9 (requirement examined only at the header
+Write, cleared by every successful Close); 1 = with 32ed8a9 (an incremental Close looks at the
+FULL_NEEDED flag again before consuming the WAL directory); 2 = current source, with 352e039 as
+well: Close re-examines DueNext() (flag OR empty store), an incremental snapshot never clears the
+requirement, and a full snapshot clears only the requirement that was in force when its sink was
+created (`tok`; every SetDueNext(Full) creates a new requirement, counted by `fnGen`).
 -/
 import RqModel.Model.SnapFS
 namespace RqModel.SnapCat
@@ -33,11 +36,15 @@ structure Sink (D : Type) where
   mt     : Meta
   opened : Bool
   hdr    : Hdr D
+  /-- the requirement in force when the sink was created, if any -/
+  tok    : Option Nat := none
 
 structure CS (D : Type) where
   fs    : FS D := {}
   /-- sink handles of this process -/
   sinks : List (Nat × Sink D) := []
+  /-- number of full-snapshot requirements raised so far -/
+  fnGen : Nat := 0
 
 variable {D : Type}
 
@@ -55,7 +62,9 @@ def fullDue (fs : FS D) : Bool := fs.fullNeeded || snapshotCount fs == 0
 /-- Store.Create: a sink whose Open made `<name>.tmp` -/
 def create (s : CS D) (h name index term : Nat) : CS D :=
   let fs := { s.fs.set name (some { tmp := true }) with names := addName s.fs.names name }
-  putSink { s with fs := fs } h { name := name, mt := ⟨name, index, term⟩, opened := true, hdr := .none }
+  putSink { s with fs := fs } h
+    { name := name, mt := ⟨name, index, term⟩, opened := true, hdr := .none,
+      tok := if s.fs.fullNeeded then some s.fnGen else none }
 
 /-- Sink.Write of a whole full payload -/
 def writeFull (s : CS D) (h : Nat) (d : D) (wals : List Nat) (v : Verdict) : CS D × String :=
@@ -85,8 +94,12 @@ def finalDir (k : Sink D) : Option (Dir D) :=
   | .inc wals => some { tmp := false, mt := some k.mt, wals := wals }
   | _ => none
 
+/-- FULL_NEEDED after a successful Close of a full snapshot -/
+def clearedBy (lvl : Nat) (s : CS D) (k : Sink D) : Bool :=
+  if lvl ≥ 2 then (if k.tok = some s.fnGen then false else s.fs.fullNeeded) else false
+
 /-- Sink.Close -/
-def close (recheck : Bool) (s : CS D) (h : Nat) : CS D × String :=
+def close (lvl : Nat) (s : CS D) (h : Nat) : CS D × String :=
   match getSink s h with
   | none => (s, "nosink")
   | some k =>
@@ -101,11 +114,13 @@ def close (recheck : Bool) (s : CS D) (h : Nat) : CS D × String :=
       | .full _ _ .short => (s1, "err incomplete")
       | .full _ _ .badcrc => (s1, "err crc")
       | .full d wals .ok =>
-        ({ s1 with fs := { s1.fs.set k.name (finalDir k) with fullNeeded := false } }, "ok")
+        ({ s1 with fs := { s1.fs.set k.name (finalDir k) with fullNeeded := clearedBy lvl s k } }, "ok")
       | .inc wals =>
-        if recheck && s.fs.fullNeeded then
+        if (lvl = 1 && s.fs.fullNeeded) || (lvl ≥ 2 && fullDue s.fs) then
           ({ s1 with fs := s1.fs.set k.name none }, "err full-needed")
-        else ({ s1 with fs := { s1.fs.set k.name (finalDir k) with fullNeeded := false } }, "ok")
+        else
+          ({ s1 with fs := { s1.fs.set k.name (finalDir k) with
+                fullNeeded := if lvl ≥ 2 then s.fs.fullNeeded else false } }, "ok")
 
 /-- Sink.Close when the final rename fails (the snapshot's final name is taken by a plain file):
 every step before the rename has happened, nothing after it -/
@@ -123,7 +138,7 @@ def closeRenameFails (s : CS D) (h : Nat) : CS D × String :=
       | .full _ _ .badcrc => (s1, "err crc")
       | .full _ _ .ok => (s1, "err rename")
       | .inc _ =>
-        if s.fs.fullNeeded then ({ s1 with fs := s1.fs.set k.name none }, "err full-needed")
+        if fullDue s.fs then ({ s1 with fs := s1.fs.set k.name none }, "err full-needed")
         else (s1, "err rename")
 
 /-- Sink.Cancel -/
@@ -141,12 +156,12 @@ def cancel (s : CS D) (h : Nat) : CS D × String :=
       | _ => ({ s1 with fs := s.fs.set k.name none }, "ok")
 
 /-- Store.SetDueNext(Full) -/
-def setFull (s : CS D) : CS D := { s with fs := { s.fs with fullNeeded := true } }
+def setFull (s : CS D) : CS D := { s with fs := { s.fs with fullNeeded := true }, fnGen := s.fnGen + 1 }
 
 /-- process restart: sink handles are gone, NewStore runs check -/
 def reopen (A : DbAlg D) (s : CS D) : CS D × String :=
   match check A s.fs with
-  | .ok fs => ({ fs := fs, sinks := [] }, "ok")
+  | .ok fs => ({ s with fs := fs, sinks := [] }, "ok")
   | .error e => ({ s with sinks := [] }, "err " ++ e)
 
 def reapOp (A : DbAlg D) (s : CS D) (newName : Nat) : CS D × String :=
@@ -172,10 +187,10 @@ def crashClose (s : CS D) (h : Nat) (c : CloseCut) : CS D :=
   | none => { s with sinks := [] }
   | some k =>
     match finalDir k, c with
-    | some d, .renamed => { fs := s.fs.set k.name (some d), sinks := [] }
-    | some d, .metaWritten => { fs := s.fs.set k.name (some { d with tmp := true }), sinks := [] }
-    | some d, .filesInPlace => { fs := s.fs.set k.name (some { d with tmp := true, mt := none }), sinks := [] }
-    | some d, .walDirMoved => { fs := s.fs.set k.name (some { tmp := true }), sinks := [] }
+    | some d, .renamed => { s with fs := s.fs.set k.name (some d), sinks := [] }
+    | some d, .metaWritten => { s with fs := s.fs.set k.name (some { d with tmp := true }), sinks := [] }
+    | some d, .filesInPlace => { s with fs := s.fs.set k.name (some { d with tmp := true, mt := none }), sinks := [] }
+    | some d, .walDirMoved => { s with fs := s.fs.set k.name (some { tmp := true }), sinks := [] }
     | none, _ => { s with sinks := [] }
 
 /-! ### operation sequences -/
@@ -197,7 +212,7 @@ def stepOp (A : DbAlg D) (s : CS D) : COp D → CS D × String
   | .create h n i t => (create s h n i t, "ok")
   | .wfull h d ws v => writeFull s h d ws v
   | .winc h ws => writeInc s h ws
-  | .close h => close true s h
+  | .close h => close 2 s h
   | .cancel h => cancel s h
   | .closeRenameFails h => closeRenameFails s h
   | .setFull => (setFull s, "ok")
@@ -206,5 +221,40 @@ def stepOp (A : DbAlg D) (s : CS D) : COp D → CS D × String
   | .reap nn => reapOp A s nn
 
 def runOps (A : DbAlg D) (s : CS D) (ops : List (COp D)) : CS D := ops.foldl (fun s o => (stepOp A s o).1) s
+
+/-! ### side conditions of the catalog theorems, executable (C09 `OpOK'`; the correspondence run asks the
+model whether every generated operation is inside the proven domain) -/
+
+/-- ordering key of a snapshot directory: (term, index, name) -/
+def keyOf (n : Nat) (d : Dir D) : Nat × Nat × Nat :=
+  match d.mt with
+  | some m => (m.term, m.index, n)
+  | none => (0, 0, n)
+
+def keyLe (a b : Nat × Nat × Nat) : Prop :=
+  a.1 < b.1 ∨ (a.1 = b.1 ∧ (a.2.1 < b.2.1 ∨ (a.2.1 = b.2.1 ∧ a.2.2 ≤ b.2.2)))
+
+instance (a b : Nat × Nat × Nat) : Decidable (keyLe a b) := by unfold keyLe; exact inferInstance
+
+def allClosed (s : CS D) : Bool := s.sinks.all fun p => !p.2.opened
+
+def okB (s : CS D) : COp D → Bool
+  | .create _ name index term =>
+    (s.fs.dir name).isNone && allClosed s && !s.fs.names.contains name &&
+    s.fs.names.all fun n =>
+      match s.fs.dir n with
+      | some d => d.tmp || decide (keyLe (keyOf n d) (term, index, name))
+      | none => true
+  | .wfull _ _ ws _ => decide ws.Nodup
+  | .winc _ ws => !ws.isEmpty && decide ws.Nodup
+  | .crashClose h _ =>
+    match getSink s h with
+    | none => true
+    | some k => k.opened && (match k.hdr with
+      | .inc _ => !s.fs.fullNeeded
+      | _ => true)
+  | .reap nn => allClosed s && (s.fs.dir nn).isNone && !s.fs.names.contains nn
+  | _ => true
+
 
 end RqModel.SnapCat
